@@ -343,6 +343,11 @@ func (s *c04Sim) observe(ev string) {
 			for _, c := range calls {
 				if c.Answered && c.Outcome != nil && c.Start >= p.offeredAt {
 					locus = "spurious-error/tied-to-failed-batch-without-its-items/" + s.cfg.Sizer
+					if s.cfg.Sizer == "items" && s.cfg.Signal == "profiles" {
+						// with items only an indivisible unit (a profile) can keep the first flushed batch
+						// free of the new request's items; for the divisible signals this stays unexpected
+						locus += "/indivisible-profile"
+					}
 				}
 			}
 			r.Failf("completion", locus, "request %d completed with %v although no batch holding part of it failed", p.reqNo, err)
